@@ -684,20 +684,18 @@ func (d *cborDecDriver[T]) decTagBigFloatAsFloat(decimal bool) (f float64) {
 	// re-entered decFloat on the stale tag descriptor (or on a nested tag), one stack frame per input byte.
 	exp := d.decTagInteger()
 	mant := d.decTagInteger()
-	if decimal { // m*(10**e)
-		// MARKER: if precision/other issues crop, consider using big.Float on base 10.
-		// The logic is more convoluted, which is why we leverage readFloatResult for now.
-		rf := readFloatResult{exp: int8(exp)}
-		if mant >= 0 {
-			rf.mantissa = uint64(mant)
-		} else {
-			rf.neg = true
-			rf.mantissa = uint64(-mant)
-		}
-		f, _ = parseFloat64_reader(rf)
-		// f = float64(mant) * math.Pow10(exp)
+	if decimal { // m*(10**e), correctly rounded; +-Inf / +-0 when out of range
+		// (was: exponent truncated to int8 - 10^256 read as 10^0 - and table lookups that
+		// panicked with an index out of range, reported as unexpected EOF, beyond 10^+-22)
+		f = decimalFraction64(mant, exp)
 	} else { // m*(2**e)
 		// f = float64(mant) * math.Pow(2, exp)
+		// clamp: big.Float adds exponents in int64 and int(exp) may wrap; +-2^20 is already +-Inf / +-0
+		if exp > 1<<20 {
+			exp = 1 << 20
+		} else if exp < -(1 << 20) {
+			exp = -(1 << 20)
+		}
 		bfm := new(big.Float).SetPrec(64).SetInt64(mant)
 		bf := new(big.Float).SetPrec(64).SetMantExp(bfm, int(exp))
 		f, _ = bf.Float64()
